@@ -1,10 +1,29 @@
 (* C08 — evaluated on every case of the correspondence check. *)
-From Yv Require Export Common.Base C08.Model C08.Spec.
+From Yv Require Export Common.Base C08.Model C08.Spec C08.Fds C08.FdSpec C08.EnvModel.
 
-(* kind, parent before, child at entry, child at the end of the body, parent after *)
-Definition case := (kind * snap * snap * snap * snap)%type.
+(* Two kinds of cases.
 
-Definition run_case (c : case) : verdict :=
+   CSnap: kind, parent before, child at entry, child at the end of the body,
+          parent after (whole-state snapshots).
+
+   CFd:   descriptor-table trace of one construct run on the real shell:
+          construct (0 = pipeline of [n] commands, 1 = command substitution),
+          soft limit on descriptors, the stage whose fork was made to fail,
+          the parent's table before, the parent's table at every successful
+          fork (= the initial table of that child), every child's table after
+          its rewiring (None = that child did not get that far), the parent's
+          table after, "the construct ran to completion", "the data written by
+          the first command arrived at the end and every reader saw EOF". *)
+Inductive case :=
+| CSnap (c : kind * snap * snap * snap * snap)
+| CFd (construct : N) (n : nat) (lim : option N) (forkfail : option nat) (t0 : fdt)
+      (forks : list fdt) (entries : list (option fdt)) (after : fdt)
+      (completed : bool) (flow_ok : bool)
+(* CEnv: the part of the entry view outside the snapshot (jobs, $!, frames),
+   observed in the parent before the subshell and in the child at entry *)
+| CEnv (k : kind) (before entry : xview).
+
+Definition run_snap (c : kind * snap * snap * snap * snap) : verdict :=
   match c with
   | (k, before, entry, child_end, after) =>
       match snap_diff before after with
@@ -21,6 +40,73 @@ Definition run_case (c : case) : verdict :=
           else if snap_eqb entry child_end then 99%N   (* the mutators had no effect: vacuous case *)
           else 0%N
       end
+  end.
+
+Definition faults_of (n : nat) (forkfail : option nat) : list (pfault * bool) :=
+  map (fun i => (NoFault, match forkfail with Some k => Nat.eqb i k | None => false end)) (seq 0 n).
+
+Fixpoint keep_present {A B} (mask : list (option A)) (l : list B) : list B :=
+  match mask, l with
+  | Some _ :: mask', x :: l' => x :: keep_present mask' l'
+  | None :: mask', _ :: l' => keep_present mask' l'
+  | _, _ => []
+  end.
+
+Fixpoint somes {A} (l : list (option A)) : list A :=
+  match l with
+  | [] => []
+  | Some x :: l' => x :: somes l'
+  | None :: l' => somes l'
+  end.
+
+Definition model_run (construct : N) (n : nat) (lim : option N) (forkfail : option nat) (t0 : fdt)
+  : list (fdt * pset) * ending * pst :=
+  if N.eqb construct 0 then pipeline lim (faults_of n forkfail) n t0 (fresh_ofd t0)
+  else cmdsubst lim NoFault (match forkfail with Some _ => true | None => false end) t0 (fresh_ofd t0).
+
+Definition model_child (construct : N) (lim : option N) (c : fdt * pset) : fdt :=
+  cres_tab (if N.eqb construct 0 then move_to_stdin_stdout lim (fst c) (snd c)
+            else cmdsubst_child lim (fst c) (snd c)).
+
+Definition run_fd (construct : N) (n : nat) (lim : option N) (forkfail : option nat) (t0 : fdt)
+    (forks : list fdt) (entries : list (option fdt)) (after : fdt)
+    (completed flow_ok : bool) : verdict :=
+  if (Nat.eqb n 0 || negb (N.leb construct 1) || negb (sorted_fds t0))%bool then 99%N
+  else
+  (* ORACLE, on what the real shell did *)
+  if negb (tab_same t0 after) then 40%N
+  else if negb (forallb (fork_table_ok construct t0) forks) then 42%N
+  else if negb (entries_ok construct n t0 entries) then 41%N
+  else if completed && negb flow_ok then 43%N
+  else
+  (* MODEL against the implementation *)
+  let '(children, e, st) := model_run construct n lim forkfail t0 in
+  let single := (N.eqb construct 0 && Nat.eqb n 1)%bool in     (* one command: no fork at all *)
+  let m_forks := if single then [] else map fst children in
+  let m_entries := map (model_child construct lim) children in
+  if negb (Bool.eqb completed (N.eqb (ending_code e) 0)) then 1%N
+  else if negb (Nat.eqb (length forks) (length m_forks)) then 1%N
+  else if negb (Nat.eqb (length entries) (length m_entries)) then 1%N
+  else
+    let real := forks ++ somes entries ++ [after] in
+    let model := m_forks ++ keep_present entries m_entries ++ [tab st] in
+    if tabs_eqb (canon_tabs t0 [] real) (canon_tabs t0 [] model) then 0%N else 1%N.
+
+Definition empty_snap : snap := mkSnap [] [] [] [] [] [] 0 [] [].
+
+Definition run_env (k : kind) (before entry : xview) : verdict :=
+  if negb (xentry_jobs_ok before entry) then 50%N
+  else if negb (xentry_last_ok before entry) then 51%N
+  else if negb (xentry_stack_ok before entry) then 52%N
+  else if xview_eqb (xview_of (enter_subshell (env_of_xview empty_snap before) k false)) entry
+       then 0%N else 1%N.
+
+Definition run_case (c : case) : verdict :=
+  match c with
+  | CEnv k before entry => run_env k before entry
+  | CSnap c => run_snap c
+  | CFd construct n lim forkfail t0 forks entries after completed flow_ok =>
+      run_fd construct n lim forkfail t0 forks entries after completed flow_ok
   end.
 
 Definition run_cases := run_cases_with run_case.
